@@ -142,7 +142,7 @@ CHECKS = {
          'required closure for every initial relation; the classical identity/existence completion is explored '
          'over all orders of set_value calls; minfloor/maxceil on symbolic integer lists (and once more as CrossHair '
          'contracts over the real functions, xh/limit_best_contracts.py).',
-    note='Bounds: 2 (quick) / 3 worlds, 2 / 3 constants, sentence depth 2, 3 / 4 set_value calls. Stub: symbolic '
+    note='Bounds: 2 worlds (the frame alone: 3 quick / 4 thorough), 2 constants (3 in the non-modal logics, thorough), sentence depth 2, 3 / 4 set_value calls. Stub: symbolic '
          'values are placed into frames directly because the setters compare with `is`. Table correctness is C07; '
          'FDE-family quantifiers are compared with the documented min/max.',
     technique='proxy-based symbolic execution (pysymex) of the evaluator + SMT equivalence with the documented recursion'),
